@@ -46,8 +46,6 @@ KNOWN = os.environ.get("VF_KNOWN") or os.path.join(
 # When the entry disappears from known_findings.jsonl or is marked fixed the class is generated at full
 # rate again, so a regression is reported.  name -> exact key pattern of the known finding
 CONFINE = {
-    "rdc_basic_zero": ["fb_rdc_basic|*|zero-result|crash:*"],
-    "srt_quick_srtp": ["fb_srt_quick|*|srtp|crash:*"],
     "fix_basic_long": ["eb_mul_fix_basic|*|*x[lh]|crash:*"],
     "kbltz_tnaf_long": ["eb_mul_*|kbltz:*|*xl*|crash:*"],
 }
@@ -276,8 +274,6 @@ class FieldPart(object):
         self.k = R.bn_new()
         self.not_built = set()
         self.slv_tr1 = 0
-        self.confined = load_confined()
-        self.stepped = 0
 
     def el(self):
         return patterns(self.rng, self.m, self.W)
@@ -355,28 +351,6 @@ class FieldPart(object):
             if not alias:
                 self.unchanged(self.a, x)
 
-    def is_srtp(self, f):
-        """fb_srtn_low takes its pentanomial path (fb_srtp_low) when all three middle exponents are odd"""
-        mid = [i for i in range(1, self.m) if (f >> i) & 1]
-        return len(mid) == 3 and all(i & 1 for i in mid)
-
-    def sacrificial(self, fld, F):
-        """the single directed case of every confined known fatal class (before any other work of shard 0)"""
-        ctx, R, B = self.ctx, self.R, self.B
-        if "srt_quick_srtp" in self.confined and self.is_srtp(F.f) and self.has("fb_srt_quick"):
-            with Case(ctx, "fb_srt_quick|%s|srtp" % fld, [hx(5)]) as go:
-                if go:
-                    B.fb_put(self.a, 5)
-                    if self.no_error(R.call("fb_srt_quick", self.c, self.a)):
-                        self.out_fb(self.c, F.sqrt(5))
-        if "rdc_basic_zero" in self.confined and self.has("fb_rdc_basic"):
-            with Case(ctx, "fb_rdc_basic|%s|zero-result" % fld, [hx(0)]) as go:
-                if go:
-                    ctypes.memset(self.dv, 0, B.dvsz)
-                    B.fb_fill(self.c, R.poison)
-                    if self.no_error(R.call("fb_rdc_basic", self.c, self.dv)):
-                        self.out_fb(self.c, 0)
-
     def getters(self, fld, F):
         """the polynomial getters against the model: reduction exponents, trace positions, sqrt(z) and its table"""
         ctx, R, B, m = self.ctx, self.R, self.B, self.m
@@ -438,13 +412,6 @@ class FieldPart(object):
                ["mul_dig"] * 2)
         # iterated-squaring tables are expensive to build: a few exponents per worker, many elements each
         itr_tabs = {}
-        srtp = self.is_srtp(f)
-        quick_srt = [fn for fn in srts if impl_of(R, fn) == "fb_srt_quick"]
-        srt_off = srtp and "srt_quick_srtp" in self.confined and bool(quick_srt)
-        if srt_off:
-            # known fatal: after the sacrificial case everything that reaches fb_srt_quick is stepped around
-            srts = [fn for fn in srts if fn not in quick_srt]
-        srt_dep = srt_off and impl_of(R, "fb_srt") == "fb_srt_quick"     # fb_itr_* with b < 0 call fb_srt
         delems = [0, 1, 2, 3, 1 << (m - 1), B.mask, (1 << (m - 1)) | 1, f & B.mask]
         # every variant of every unary operation sees the distinguished elements first (split over the shards)
         directed = [(o, fn, x) for o, fns in (("inv", invs), ("sqr", sqrs), ("srt", srts), ("trc", trcs), ("slv", slvs))
@@ -518,9 +485,6 @@ class FieldPart(object):
                 cls = "deg<m" if wide <= B.mask else ("deg=2m-2" if wide >> (2 * m - 2) else "deg>=m")
                 if F.red(wide) == 0:
                     cls = "zero-result"
-                    if impl_of(R, fn) == "fb_rdc_basic" and "rdc_basic_zero" in self.confined:
-                        self.stepped += 1
-                        continue
                 with Case(ctx, "%s|%s|%s" % (impl_of(R, fn), fld, cls), [hx(wide)], nontrivial=wide > B.mask) as go:
                     if go:
                         ctypes.memset(self.dv, R.poison, B.dvsz)
@@ -559,9 +523,6 @@ class FieldPart(object):
                             if pc != pa:
                                 R.free(pc)
             elif op == "srt":
-                if not srts:
-                    self.stepped += 1
-                    continue
                 fn = variant(srts)
                 self.unop(fld, F, fn, x, None, judge=lambda g: F.sqr(g) == x)
             elif op == "trc":
@@ -613,9 +574,6 @@ class FieldPart(object):
             elif op == "itr":
                 c = rng.randrange(4)
                 bexp = rng.choice([0, 1, 2, 3, m - 1, m, m + 1, -1, -2, -(m - 1), rng.randrange(-m, m + 1)])
-                if srt_dep and bexp < 0:
-                    self.stepped += 1
-                    continue
                 if c == 0 or not self.has("fb_itr_pre_quick"):
                     fn = rng.choice(["fb_itr_basic", "vf_x16_fb_itr3"])
                     alias = rng.randrange(2)
@@ -888,16 +846,12 @@ def run_field_part(ctx, R, B):
         F.trace_mask()
         fields[nm] = F
         seen.append({"id": nm, "poly": hx(f)})
-        if ctx.shard == 0:
-            fp.sacrificial(nm, F)
     for nm, v in ids:
         if nm in fields and activate(nm, v) is not None:
             fp.run_field(nm, fields[nm], N // len(fields))
     ctx.note("field_polynomials", seen)
     ctx.note("functions_not_built", sorted(fp.not_built))
     ctx.add("fb_slv_trace1_inputs_not_judged", fp.slv_tr1)
-    ctx.note("confined_known_fatal", sorted(fp.confined))
-    ctx.add("cases_stepped_around_confined_known_fatal", fp.stepped)
 
 
 
